@@ -4,7 +4,7 @@
 # worktree outside /repo and /verif, then applies it to /repo, runs the property's check (and all
 # other registered checks), and undoes it.
 export GOFLAGS=-mod=mod GOPROXY=off GOSUMDB=off GOTOOLCHAIN=local; unset GOWORK
-PROP=$1; SD=$2; WT=${3:-/tmp/wt_seedcheck}
+PROP=$1; SD=$2; WT=${3:-${SEEDWT:-/tmp/wt_seedcheck}}
 if [ ! -d "$WT" ]; then git -C /repo worktree add --detach "$WT" HEAD -q || exit 2; fi
 git -C "$WT" checkout -q --detach "$(git -C /repo rev-parse HEAD)" 2>/dev/null
 git -C "$WT" checkout -- . ; git -C "$WT" clean -fdq
@@ -27,7 +27,8 @@ rm -f "$WT/$pkgdir/zz_seed_demo_test.go"; [ -n "$made" ] && rmdir "$WT/$pkgdir" 
 echo "suite_with_change: $( [ -z "$suite" ] && echo pass || echo FAIL )"
 echo "demo_with_change: $with"
 echo "demo_without: $without"
-# now against /repo
+# now against /repo (NOREPO=1: skip; detection is then established by tools/redetect.py on scratch copies)
+[ -n "$NOREPO" ] && { echo "== done (confirmation only)"; exit 0; }
 cd /verif
 git -C /repo apply "$SD/patch.diff" || { echo "RESULT repo-apply-failed"; exit 1; }
 for p in $(${LINT:-bin/gokrb5lint} list); do case " $SEEDCHECK_SKIP " in *" $p "*) continue;; esac
